@@ -158,60 +158,131 @@ pub fn scenario_batch_matches_single<C: Suite>(rng: &mut TestRng, p: &Params, no
     )
 }
 
-/// Two items under the same key whose response scalars were shifted by +d and -d: the errors cancel
-/// in an unblinded sum, the random blinders must catch it.
+fn small_scalar<C: Suite>(k: usize) -> Sc<C> {
+    let mut acc = zero::<C>();
+    for _ in 0..k {
+        acc = acc + one::<C>();
+    }
+    acc
+}
+
+/// Invalid items whose errors cancel in a WEIGHTED sum: m items (2 or 3) at positions p_1 < .. < p_m of a batch of n items
+/// (n up to 64) get their response scalars shifted by e_1 .. e_m with  w_1 e_1 + .. + w_m e_m = 0  for a public weight vector w.
+/// The batch must be rejected whatever w is: a verifier whose blinders are related by publicly known ratios (all equal; i, i+1,
+/// 2^i, ... times one secret value) accepts the batch for the matching w with probability 1.  Weight families: all ones (the plain
+/// +d / -d pair, or two responses swapped), position + 1, position, squares, powers of two, small integers a, b in 1..=4.  Nobody
+/// needs a secret key to craft these.  Items use one key or one key per item.
 pub fn scenario_batch_cancelling_errors<C: Suite>(rng: &mut TestRng, _p: &Params, notes: &mut Notes) -> Verdict {
-    let sk = fc::SigningKey::<C>::new(rng);
-    let vk = fc::VerifyingKey::<C>::from(&sk);
-    let n = rng.range(2, 8);
+    let n = match rng.below(5) {
+        0 => [16usize, 33, 64][rng.below(3)],
+        1 => 2,
+        _ => rng.range(2, 8),
+    };
+    let one_key = rng.chance(50);
+    let shared = fc::SigningKey::<C>::new(rng);
     let mut items: Vec<Triple<C>> = (0..n)
         .map(|i| {
+            let sk = if one_key { shared.clone() } else { fc::SigningKey::<C>::new(rng) };
             let msg = format!("message {i}").into_bytes();
             let sig = sk.sign(&mut *rng, &msg);
-            Triple { vk, msg, sig }
+            Triple { vk: fc::VerifyingKey::<C>::from(&sk), msg, sig }
         })
         .collect();
-    let pair = rng.subset(n, 2);
-    // either shift by +d / -d, or swap the response scalars of the two signatures (d = z_b - z_a)
-    let swap = rng.chance(50);
-    notes.insert("variant".into(), json!(if swap { "responses swapped" } else { "shifted by +d / -d" }));
+    let m = if n >= 3 && rng.chance(30) { 3 } else { 2 };
+    // positions: anywhere, or the two ends
+    let pos = if rng.chance(25) && m == 2 { vec![0, n - 1] } else { rng.subset(n, m) };
     let z_of = |sig: &fc::Signature<C>| -> Option<Sc<C>> {
         let b = sig.serialize().ok()?;
         let zlen = scalar_bytes::<C>(&zero::<C>()).len();
         scalar_from_bytes::<C>(b.get(b.len() - zlen..)?)
     };
-    let d = if swap {
-        match (pair.first().and_then(|i| items.get(*i)).and_then(|x| z_of(&x.sig)), pair.get(1).and_then(|i| items.get(*i)).and_then(|x| z_of(&x.sig))) {
-            (Some(za), Some(zb)) => zb - za,
-            _ => return skip("cannot read z"),
-        }
-    } else {
+    let family = ["all-ones", "responses-swapped", "position+1", "position+1", "position+1", "position", "squares", "powers-of-two", "small-integers", "small-integers"][rng.below(10)];
+    let family = if family == "responses-swapped" && m != 2 { "all-ones" } else { family };
+    let weights: Vec<Sc<C>> = pos
+        .iter()
+        .map(|q| match family {
+            "position+1" => small_scalar::<C>(q + 1),
+            "position" => small_scalar::<C>(*q),
+            "squares" => small_scalar::<C>((q + 1) * (q + 1)),
+            "powers-of-two" => pow2::<C>(*q),
+            "small-integers" => small_scalar::<C>(rng.range(1, 4)),
+            _ => one::<C>(),
+        })
+        .collect();
+    notes.insert("batch_size".into(), json!(n));
+    notes.insert("one_key_for_all_items".into(), json!(one_key));
+    notes.insert("shifted_items".into(), json!(pos));
+    notes.insert("weight_family".into(), json!(family));
+    notes.insert("weights_hex".into(), json!(weights.iter().map(|w| hex(&scalar_bytes::<C>(w))).collect::<Vec<_>>()));
+    // errors: e_j = (product of the other weights) * d_j for j < m, and the last one balances the weighted sum; with two items
+    // and weights (a, b) that is the pair (b d, -a d) of the seed's description.  A zero weight leaves that item's error free.
+    let mut errors: Vec<Sc<C>> = Vec::new();
+    let last = m - 1;
+    let mut acc = zero::<C>();
+    let w_last = weights[last];
+    for j in 0..last {
+        let d = if family == "responses-swapped" {
+            match (items.get(pos[0]).and_then(|x| z_of(&x.sig)), items.get(pos[1]).and_then(|x| z_of(&x.sig))) {
+                (Some(za), Some(zb)) => zb - za,
+                _ => return skip("cannot read z"),
+            }
+        } else {
+            random_nonzero_scalar::<C>(rng)
+        };
+        let e = if w_last == zero::<C>() { d } else { d * w_last };
+        acc = acc + weights[j] * e;
+        errors.push(e);
+    }
+    let e_last = if w_last == zero::<C>() {
+        // the last item is not weighted at all: any error goes unnoticed by such a verifier; the others must cancel alone
         random_nonzero_scalar::<C>(rng)
+    } else {
+        match <Fd<C> as fc::Field>::invert(&w_last) {
+            Ok(inv) => zero::<C>() - acc * inv,
+            Err(_) => return skip("weight not invertible"),
+        }
     };
-    let (a, b) = match (pair.first(), pair.get(1)) {
-        (Some(a), Some(b)) => (*a, *b),
-        _ => return skip("internal"),
-    };
-    notes.insert("shifted_items".into(), json!([a, b]));
-    for (pos, delta) in [(a, d), (b, zero::<C>() - d)] {
-        if let Some(it) = items.get_mut(pos) {
-            match tweak_z::<C>(&it.sig, &delta) {
+    errors.push(e_last);
+    if errors.iter().all(|e| *e == zero::<C>()) {
+        return skip("all errors are zero");
+    }
+    let mut altered = 0;
+    for (q, e) in pos.iter().zip(&errors) {
+        if *e == zero::<C>() {
+            continue;
+        }
+        if let Some(it) = items.get_mut(*q) {
+            match tweak_z::<C>(&it.sig, e) {
                 Some(s) => it.sig = s,
                 None => return skip("cannot shift z"),
             }
+            altered += 1;
         }
     }
     let mut verifier = batch::Verifier::<C>::new();
+    let mut invalid = 0;
     for it in &items {
+        if it.vk.verify(&it.msg, &it.sig).is_err() {
+            invalid += 1;
+        }
         match batch::Item::<C>::new(it.vk, it.sig, &it.msg) {
             Ok(item) => verifier.queue(item),
             Err(_) => return skip("item cannot be built"),
         }
     }
+    if invalid == 0 {
+        return skip("every altered item still verifies");
+    }
+    notes.insert("items_not_verifying_singly".into(), json!(invalid));
+    let _ = altered;
     check(
         verifier.verify(&mut *rng).is_err(),
-        "a batch with two invalid items whose errors cancel is rejected",
+        &if m == 2 && (family == "all-ones" || family == "responses-swapped") {
+            "a batch with two invalid items whose errors cancel is rejected".to_string()
+        } else {
+            format!("a batch with invalid items whose errors cancel in a weighted sum (weights: {family}) is rejected")
+        },
         "Err(..)",
-        "Ok(())",
+        format!("Ok(()) for a batch of {n} items of which {invalid} do not verify singly (positions {pos:?})"),
     )
 }
